@@ -387,6 +387,23 @@ def compile (wrap : Bool) (t : Tm) : List Item :=
   | .path p => if wrap then [.op .exists, .path p, .val (.bool true)] else [.path p]
   | t => flatten t
 
+/-- the `*Filter` fragment of `Expr.Get` on a list (jp/get.go: `tf.evalWithRoot(stack, prev, data)`, results
+handed on in index order): the elements whose verdict is true; a fault on any element is a panic of the
+whole call. `root` is the document given to `Get` (what `$` inside the script refers to). -/
+def filterList (d : Dev) (rx : RxEngine) (prog : List Item) (root : Val) : List Val → Except Fault (List Val)
+  | [] => .ok []
+  | e :: rest =>
+    match filterList d rx prog root rest with
+    | .error f => .error f
+    | .ok r =>
+      match matchElem d rx prog e root with
+      | .error f => .error f
+      | .ok b => .ok (if b then e :: r else r)
+
+/-- `$[?script]` applied to a document: the filter fragment on the document's elements, `$` = the document -/
+def filterGet (d : Dev) (rx : RxEngine) (prog : List Item) (doc : Val) : Except Fault (List Val) :=
+  filterList d rx prog doc (match doc with | .arr xs => xs | .obj kvs => kvs.map (·.2) | _ => [])
+
 /-- elements of the filtered container, in index order (members of an object in the order given) -/
 def elements : Val → List Val
   | .arr xs => xs
